@@ -122,6 +122,20 @@ def contract_unit(spec):
                                    'backend': 'simplify', 'time': 0.0, 'smt_bytes': 0,
                                    'text': info.get('text'), 'okind': info.get('kind'),
                                    'known': bool(info.get('known'))})
+    if tier == 'thorough' and c.ghost.get('k3') and not c.ghost.get('k3_static_only') and not vc.exclusions:
+        # CPython cross-check of the schema contract (bounded, never counted as proved): the same
+        # contract strings evaluated on the real compiler + runtime for the whole child x value
+        # catalogue.  On the unchanged tree this must hold -- it guards the model and the harness.
+        r = rp.k3_search(c, budget=20000)
+        out['bounded'] = [{'id': 'B-K3[%s]' % c.qual, 'function': 'schema %s on the real pipeline' % c.qual,
+                           'bound': 'child catalogue x value catalogue x handler modes x pre-bound names',
+                           'cases': r.get('tried', 0), 'distinct': r.get('tried', 0)}]
+        if r.get('verdict') == 'violates':
+            out['obligations'].append({
+                'name': 'B-K3[%s]' % c.qual, 'expect': 'valid', 'status': 'failed', 'backend': 'bounded',
+                'time': 0.0, 'okind': 'bounded', 'tried': 'enumeration', 'confirmed': True,
+                'text': 'the schema contract holds on the real code for every catalogue instance',
+                'witness': {'inputs': r.get('inputs'), 'detail': r.get('detail')}})
     out['known'] = {n: [{'what': f['what'], 'witness': f['witness']} for f in fs]
                     for n, fs in known.items()}
     out['models'] = sorted(models.USED)
